@@ -48,6 +48,8 @@ struct SfShared
   int  active;
   int  system_calls;   // system() commands executed through the helper
   long bytes_at_system[4]; // bytes that had reached object 0 when the n-th system() command started
+  int  party_fired[4];     // "another process ran here": see simf_add_party
+  int  party_status[4];
 };
 
 SfShared *simf_shared();              // allocates the shared page on first use (call before fork)
@@ -58,5 +60,10 @@ bool simf_install();                  // in the run child, just before the tool'
 int  simf_helper_start();             // fork the system() helper (before simf_install)
 bool simf_helper_active();
 int  simf_helper_system(const char *cmd);
+// A second party: 'cmd' (a complete action of another process, e.g. a concurrent instance of the same tool working on
+// a file of the same name) is executed by the helper at the instant just before the k-th call of class 'op' on object
+// 'obj' - or, with op = -1, just before the k-th system() command of the tool.  The tool is stopped meanwhile, so the
+// interleaving of the two processes is decided by the simulator at system-call granularity.
+int  simf_add_party(int obj, int op, long k, const char *cmd);
 enum { SIMF_CRASH_EXIT = 111 };
 #endif
